@@ -1,5 +1,6 @@
 # Builds build/<harness> from harness/<harness>.cpp against the headers in /repo's working tree.
 REPO ?= /repo
+BUILD ?= build
 CXX  := clang++
 INC  := $(foreach d,common theta tuple hll cpc kll req quantiles fi count sampling tdigest filters density,-I$(REPO)/$(d)/include) -I$(REPO)/common/test -Imc
 BASE := -std=c++11 -O1 -g0 -DDATASKETCHES_VERIF -fno-access-control -fsanitize=address -fsanitize-recover=address -fno-omit-frame-pointer -Wno-deprecated-declarations -Wno-unused-command-line-argument
@@ -8,14 +9,14 @@ HARNESSES := $(patsubst harness/%.cpp,%,$(wildcard harness/*.cpp))
 # harnesses that need the control-flow signature for raw-draw interval discovery
 COVERAGE_HARNESSES := C08 C16 C18 C20 selftest
 
-all: $(addprefix build/,$(HARNESSES))
+all: $(addprefix $(BUILD)/,$(HARNESSES))
 
-build/%: harness/%.cpp $(wildcard mc/*.hpp) $(wildcard harness/*.hpp)
-	@mkdir -p build
-	$(CXX) $(BASE) $(if $(filter $*,$(COVERAGE_HARNESSES)),$(COV),) $(INC) -MMD -MP -MF build/$*.d -o $@ $<
+$(BUILD)/%: harness/%.cpp $(wildcard mc/*.hpp) $(wildcard harness/*.hpp)
+	@mkdir -p $(BUILD)
+	$(CXX) $(BASE) $(if $(filter $*,$(COVERAGE_HARNESSES)),$(COV),) $(INC) -MMD -MP -MF $(BUILD)/$*.d -o $@ $<
 
--include $(wildcard build/*.d)
+-include $(wildcard $(BUILD)/*.d)
 
 clean:
-	rm -rf build
+	rm -rf $(BUILD)
 .PHONY: all clean
